@@ -424,49 +424,143 @@ fn report(st: &mut Stats, profile: &str, cmd: &str, class: &Class, input_files: 
     }
 }
 
-fn single_case(cfg: &Config, tmp: &Path, corpus: &[(Kind, String)], cmds: &[Cmd], idx: u64, r: &mut Rng, st: &mut Stats) {
-    let (kind, text) = gen_input(r, corpus);
-    let text: String = text.chars().take(4096).collect();
-    st.inc("inputs");
-    let candidates = prefilter(&kind, &text);
-    st.inc("in_process_checks");
-    if idx < 3 {
-        st.sample(J::obj().set("kind", J::s(format!("{kind:?}"))).set("input", J::s(&text)));
+fn kind_name(k: &Kind) -> &'static str {
+    match k {
+        Kind::Program => "Program",
+        Kind::Theory => "Theory",
+        Kind::Specification => "Specification",
+        Kind::UserGuide => "UserGuide",
     }
-    let mut to_run: Vec<&Cmd> = Vec::new();
-    for (c, _) in &candidates {
-        st.inc("in_process_panics");
-        if let Some(cmd) = cmds.iter().find(|x| &x.name == c) {
-            if !to_run.iter().any(|x| x.name == cmd.name) {
-                to_run.push(cmd);
+}
+
+fn kind_of(s: &str) -> Kind {
+    match s {
+        "Program" => Kind::Program,
+        "Theory" => Kind::Theory,
+        "Specification" => Kind::Specification,
+        _ => Kind::UserGuide,
+    }
+}
+
+/// Child-process entry (`avm C16-prefilter <batch.json> <from>`): runs the in-process pre-filter
+/// over the inputs of a batch, announcing each input before it starts, so that the parent can
+/// attribute a hang or an abort (stack overflow) of the library code to the input that caused it.
+pub fn prefilter_main(path: &str, from: usize) -> i32 {
+    use std::io::Write;
+    let Ok(text) = std::fs::read_to_string(path) else { return 2 };
+    let Ok(j) = J::parse(&text) else { return 2 };
+    let out = std::io::stdout();
+    for (i, item) in j.arr("inputs").iter().enumerate() {
+        if i < from {
+            continue;
+        }
+        let kind = kind_of(item.str("kind").unwrap_or(""));
+        let input = item.str("text").unwrap_or("");
+        {
+            let mut o = out.lock();
+            let _ = writeln!(o, "START {i}");
+            let _ = o.flush();
+        }
+        let found = prefilter(&kind, input);
+        let mut o = out.lock();
+        for (cmd, loc) in found {
+            let _ = writeln!(o, "CAND {i} {cmd} {loc}");
+        }
+        let _ = writeln!(o, "DONE {i}");
+        let _ = o.flush();
+    }
+    0
+}
+
+const BATCH: usize = 60;
+
+/// one batch of inputs: pre-filter in a child process under a CPU-time limit, then subprocess
+/// confirmation of every candidate and of a random sample of the others
+fn batch_case(cfg: &Config, tmp: &Path, corpus: &[(Kind, String)], cmds: &[Cmd], idx: u64, r: &mut Rng, st: &mut Stats) {
+    let inputs: Vec<(Kind, String)> = (0..BATCH)
+        .map(|_| {
+            let (k, t) = gen_input(r, corpus);
+            (k, t.chars().take(4096).collect::<String>())
+        })
+        .collect();
+    st.add("inputs", inputs.len() as u64);
+    if idx == 0 {
+        for (k, t) in inputs.iter().take(3) {
+            st.sample(J::obj().set("kind", J::s(format!("{k:?}"))).set("input", J::s(t)));
+        }
+    }
+    let batch_file = tmp.join(format!("batch_{idx}.json"));
+    let j = J::obj().set("inputs", J::Arr(inputs.iter().map(|(k, t)| J::obj().set("kind", J::s(kind_name(k))).set("text", J::s(t))).collect()));
+    std::fs::write(&batch_file, j.compact()).unwrap();
+    let exe = std::env::current_exe().unwrap();
+    let mut candidates: Vec<(usize, String, String)> = Vec::new();
+    let mut suspects: Vec<usize> = Vec::new();
+    let mut from = 0usize;
+    let mut rounds = 0;
+    while from < inputs.len() && rounds < 8 {
+        rounds += 1;
+        let script = "ulimit -t 60; ulimit -c 0; exec \"$0\" \"$@\"";
+        let out = Command::new("sh")
+            .arg("-c")
+            .arg(script)
+            .arg(&exe)
+            .args(["C16-prefilter", batch_file.to_str().unwrap(), &from.to_string()])
+            .stdin(Stdio::null())
+            .stdout(Stdio::piped())
+            .stderr(Stdio::null())
+            .output();
+        let Ok(out) = out else {
+            st.inc("prefilter_child_spawn_failures");
+            break;
+        };
+        let text = String::from_utf8_lossy(&out.stdout).to_string();
+        let mut last_started: Option<usize> = None;
+        let mut done: std::collections::BTreeSet<usize> = std::collections::BTreeSet::new();
+        for l in text.lines() {
+            let f: Vec<&str> = l.splitn(4, ' ').collect();
+            match f.as_slice() {
+                ["START", i] => last_started = i.parse().ok(),
+                ["DONE", i] => {
+                    if let Ok(i) = i.parse() {
+                        done.insert(i);
+                    }
+                }
+                ["CAND", i, cmd, loc] => {
+                    if let Ok(i) = i.parse() {
+                        candidates.push((i, cmd.to_string(), loc.to_string()));
+                    }
+                }
+                _ => {}
             }
         }
-    }
-    if candidates.is_empty() && (r.chance(1, 12) || (idx % 29 == 0)) {
-        // random non-candidates are confirmed as well
-        let fitting: Vec<&Cmd> = cmds.iter().filter(|c| c.kind == kind || (kind == Kind::Specification && c.kind == Kind::Theory && false)).collect();
-        if !fitting.is_empty() {
-            to_run.push(fitting[r.upto(fitting.len())]);
+        st.add("in_process_checks", done.len() as u64);
+        if out.status.success() {
+            break;
+        }
+        // the child died (CPU limit, stack overflow, abort): the input it was working on is a suspect
+        st.inc("prefilter_child_died");
+        match last_started {
+            Some(i) if !done.contains(&i) => {
+                suspects.push(i);
+                from = i + 1;
+            }
+            _ => break,
         }
     }
-    if to_run.is_empty() {
-        st.eval(Some(&text));
-        return;
-    }
-    let f = tmp.join(format!("in_{idx}.{}", ext_of(&kind)));
-    let mut bytes: Vec<u8> = text.clone().into_bytes();
-    let raw_bytes = r.chance(1, 25);
-    if raw_bytes {
-        // invalid UTF-8 somewhere in the file
-        let pos = if bytes.is_empty() { 0 } else { r.upto(bytes.len()) };
-        for (k, b) in [0xffu8, 0xc3, 0x28, 0x80].iter().enumerate() {
-            bytes.insert((pos + k).min(bytes.len()), *b);
+    let _ = std::fs::remove_file(&batch_file);
+    let mut run_on = |i: usize, cmd: &Cmd, st: &mut Stats, r: &mut Rng| {
+        let (kind, text) = &inputs[i];
+        let f = tmp.join(format!("in_{idx}_{i}.{}", ext_of(kind)));
+        let mut bytes: Vec<u8> = text.clone().into_bytes();
+        if r.chance(1, 25) {
+            let pos = if bytes.is_empty() { 0 } else { r.upto(bytes.len()) };
+            for (k, b) in [0xffu8, 0xc3, 0x28, 0x80].iter().enumerate() {
+                bytes.insert((pos + k).min(bytes.len()), *b);
+            }
+            st.inc("inputs_with_invalid_utf8");
         }
-        st.inc("inputs_with_invalid_utf8");
-    }
-    std::fs::write(&f, &bytes).unwrap();
-    let via_stdin = r.chance(1, 5);
-    for cmd in to_run {
+        std::fs::write(&f, &bytes).unwrap();
+        let via_stdin = r.chance(1, 5);
         let mut args = cmd.args.clone();
         if !via_stdin {
             args.push(f.to_str().unwrap().to_string());
@@ -477,11 +571,42 @@ fn single_case(cfg: &Config, tmp: &Path, corpus: &[(Kind, String)], cmds: &[Cmd]
             let class = run_limited_stdin(&bin, &args, None, 20, if via_stdin { Some(&f) } else { None });
             st.inc("subprocess_runs");
             st.inc(&format!("subprocess_runs_{}", cmd.name.split('-').next().unwrap()));
-            report(st, profile, &cmd.args.join(" "), &class, &[(format!("input.{}", ext_of(&kind)), text.clone())]);
+            report(st, profile, &cmd.args.join(" "), &class, &[(format!("input.{}", ext_of(kind)), text.clone())]);
+        }
+        let _ = std::fs::remove_file(&f);
+    };
+    let mut ran: std::collections::BTreeSet<(usize, String)> = std::collections::BTreeSet::new();
+    for (i, c, _) in &candidates {
+        st.inc("in_process_panics");
+        if let Some(cmd) = cmds.iter().find(|x| &x.name == c) {
+            if ran.insert((*i, cmd.name.clone())) {
+                run_on(*i, cmd, st, r);
+            }
         }
     }
-    st.eval(Some(&text));
-    let _ = std::fs::remove_file(&f);
+    for i in suspects {
+        // every command that fits the kind of the suspect input
+        st.inc("suspect_inputs_after_child_death");
+        let kind = inputs[i].0.clone();
+        for cmd in cmds.iter().filter(|c| c.kind == kind) {
+            if ran.insert((i, cmd.name.clone())) {
+                run_on(i, cmd, st, r);
+            }
+        }
+    }
+    for i in 0..inputs.len() {
+        if r.chance(1, 10) {
+            let kind = inputs[i].0.clone();
+            let fitting: Vec<&Cmd> = cmds.iter().filter(|c| c.kind == kind).collect();
+            if !fitting.is_empty() {
+                let cmd = fitting[r.upto(fitting.len())];
+                if ran.insert((i, cmd.name.clone())) {
+                    run_on(i, cmd, st, r);
+                }
+            }
+        }
+        st.eval(Some(&inputs[i].1));
+    }
 }
 
 /// verify --no-proof-search on (possibly mutated) task files
@@ -596,7 +721,7 @@ pub fn run(cfg: &Config) -> i32 {
     }
     let cmds = single_file_commands();
     let budget = Duration::from_secs_f64(cfg.pick(45.0, 480.0) * cfg.scale);
-    let mut stats = parallel(cfg, "single", cfg.scaled(cfg.pick(60_000, 20_000_000)), budget, |idx, r, st| single_case(cfg, &tmp, &corpus, &cmds, idx, r, st));
+    let mut stats = parallel(cfg, "single", cfg.scaled(cfg.pick(1_000, 400_000)), budget, |idx, r, st| batch_case(cfg, &tmp, &corpus, &cmds, idx, r, st));
     let s2 = parallel(cfg, "verify", cfg.scaled(cfg.pick(1500, 1_000_000)), budget / 2, |idx, r, st| verify_case(cfg, &tmp, &corpus, idx, r, st));
     stats.merge(s2);
     let mut known_replayed = Vec::new();
@@ -611,7 +736,7 @@ pub fn run(cfg: &Config) -> i32 {
         Outcome {
             stats,
             level: "exploration",
-            rule: "byte strings up to 4 KB: files of res/examples and generated programs/theories/specifications/user guides mutated by token deletion/duplication/swap, numeral inflation to and beyond the isize/usize limits, operator soup, unbalanced and deep nesting, huge arities, role swaps, truncation, control and non-ASCII characters, empty and comment-only files; every input goes through an in-process pre-filter (catch_unwind around parse and every later stage); every candidate and a random sample of non-candidates is run through the real binary in a subprocess in release and dev profile, plus `verify --no-proof-search` on task directories with one mutated file; classification by exit status, signal, stderr and CPU-time limit (20 s), wall-clock watchdog = inconclusive; a case is a distinct input text".into(),
+            rule: "byte strings up to 4 KB: files of res/examples and generated programs/theories/specifications/user guides mutated by token deletion/duplication/swap, numeral inflation to and beyond the isize/usize limits, operator soup, unbalanced and deep nesting, huge arities, role swaps, truncation, control and non-ASCII characters, empty and comment-only files; every input goes through a pre-filter (the same library calls the commands make, with catch_unwind, run in a child process under a CPU-time limit so that a hang or stack overflow of the library is attributed to its input); every candidate and a random sample of non-candidates is run through the real binary in a subprocess in release and dev profile, plus `verify --no-proof-search` on task directories with one mutated file; classification by exit status, signal, stderr and CPU-time limit (20 s), wall-clock watchdog = inconclusive; a case is a distinct input text".into(),
             assumptions: vec!["a non-zero exit with a message on stderr and no `panicked at` is a reported error".into()],
             floor: cfg.pick(2_000, 20_000),
             floor_counter: "subprocess_runs".into(),
